@@ -27,7 +27,7 @@ mod family;
 use family::*;
 use inetnum::{addr::Prefix, asn::Asn};
 use roto::{
-    Constant, Context, FileTree, Function, List, NoCtx, Package, RotoString, Runtime, Type, Val, Value, Verdict, location,
+    Constant, Context, FileTree, Function, Impl, List, NoCtx, Package, RotoString, Runtime, Type, Val, Value, Verdict, location,
 };
 use rotov_harness::driver::Driver;
 use rotov_harness::worker::{self, Ended};
@@ -433,6 +433,120 @@ fn sc_narrow(env: &Env, rep: &mut Report, name: &str) {
     rep.class("narrow-int");
 }
 
+fn tag_w4<T: BT>(r: Val<W4>, x: T) -> T {
+    log(r.show());
+    log(x.show());
+    x
+}
+fn tag_z0<T: BT>(r: Val<Z0>, x: T, n: u16) -> T {
+    log(r.show());
+    log(x.show());
+    log(n.show());
+    x
+}
+fn make_static<T: BT>(x: T, n: u16) -> T {
+    log(x.show());
+    log(n.show());
+    x
+}
+
+/// registered methods (receiver first — also a zero-sized receiver) and a static method
+fn sc_method<T: BT>(env: &Env, rep: &mut Report, name: &str) {
+    let d = T::desc();
+    let t = d.roto();
+    let mut rt = base_runtime();
+    let mut i1 = Impl::new::<Val<W4>>(location!());
+    i1.add(Function::new("tag", "", vec!["r", "x"], tag_w4::<T>, location!()).unwrap());
+    i1.add(Function::new("make", "", vec!["x", "n"], make_static::<T>, location!()).unwrap());
+    rt.add(i1).unwrap();
+    let mut i2 = Impl::new::<Val<Z0>>(location!());
+    i2.add(Function::new("tag", "", vec!["r", "x", "n"], tag_z0::<T>, location!()).unwrap());
+    rt.add(i2).unwrap();
+    let src = format!(
+        "fn m1(r: W4, x: {t}) -> {t} {{ r.tag(x) }}\nfn m2(x: {t}, r: Z0, n: u16) -> {t} {{ r.tag(x, n) }}\nfn m3(n: u16, x: {t}) -> {t} {{ W4.make(x, n) }}\n"
+    );
+    let Some(mut pkg) = compile_noctx(&rt, &src, rep, name) else { return };
+    macro_rules! g { ($n:literal, $f:ty) => { match pkg.get_function::<$f>($n) { Ok(f) => f, Err(e) => {
+        rep.mismatch("get_function refused a boundary signature", json!({"case": name, "script": src, "fn": $n, "error": format!("{e:?}")})); return } } } }
+    let m1 = g!("m1", fn(Val<W4>, T) -> T);
+    let m2 = g!("m2", fn(T, Val<Z0>, u16) -> T);
+    let m3 = g!("m3", fn(u16, T) -> T);
+    let mut p = Prng::for_case(env.seed, h64(name));
+    for k in 0..env.rounds {
+        let (r, x, n) = (Val::<W4>::gen_val(&mut p, k), T::gen_val(&mut p, k + 1), u16::gen_val(&mut p, k + 2));
+        let (rs, xs, ns) = (r.show(), x.show(), n.show());
+        let mut bad = vec![];
+        clear_log();
+        let got = m1.call(r, x.clone()).show();
+        let lg = take_log();
+        if got != xs || lg != vec![rs.clone(), xs.clone()] { bad.push(json!({"fn": "m1", "returned": got, "method_saw": lg})); }
+        clear_log();
+        let got = m2.call(x.clone(), Val(Z0), n).show();
+        let lg = take_log();
+        if got != xs || lg != vec!["Z0".to_string(), xs.clone(), ns.clone()] { bad.push(json!({"fn": "m2", "returned": got, "method_saw": lg})); }
+        clear_log();
+        let got = m3.call(n, x.clone()).show();
+        let lg = take_log();
+        if got != xs || lg != vec![xs.clone(), ns.clone()] { bad.push(json!({"fn": "m3", "returned": got, "method_saw": lg})); }
+        rep.evaluations += 3;
+        if let Some(b) = bad.first() {
+            let mut input = b.clone();
+            input["script"] = json!(src);
+            input["sent"] = json!([rs, xs, ns]);
+            input["round"] = json!(k);
+            violation(rep, name, &[d.clone()], 1, input);
+            return;
+        }
+    }
+    rep.class(format!("method:{}", d.class()));
+}
+
+/// elements of a list as the script's `get` (ffi::list_get) and `for` hand them out
+fn sc_listget<T: BT>(env: &Env, rep: &mut Report, name: &str) {
+    let d = T::desc();
+    let t = d.roto();
+    let rt = base_runtime();
+    let src = format!(
+        "fn get(l: List[{t}], i: u64) -> Option[{t}] {{ l.get(i) }}\n\
+         fn last(l: List[{t}], d: {t}) -> {t} {{ let r = d; for x in l {{ r = x; }} r }}\n\
+         fn count(l: List[{t}]) -> u64 {{ let n = 0; for x in l {{ n = n + 1; }} n }}\n"
+    );
+    let Some(mut pkg) = compile_noctx(&rt, &src, rep, name) else { return };
+    macro_rules! g { ($n:literal, $f:ty) => { match pkg.get_function::<$f>($n) { Ok(f) => f, Err(e) => {
+        rep.mismatch("get_function refused a boundary signature", json!({"case": name, "script": src, "fn": $n, "error": format!("{e:?}")})); return } } } }
+    let f_get = g!("get", fn(List<T>, u64) -> Option<T>);
+    let f_last = g!("last", fn(List<T>, T) -> T);
+    let f_count = g!("count", fn(List<T>) -> u64);
+    let mut p = Prng::for_case(env.seed, h64(name));
+    for k in 0..env.rounds {
+        let l = List::<T>::gen_val(&mut p, k);
+        let v = l.to_vec();
+        let dflt = T::gen_val(&mut p, k + 5);
+        let mut bad = vec![];
+        for i in 0..(v.len() as u64 + 2) {
+            let want = v.get(i as usize).cloned().show();
+            let got = f_get.call(l.clone(), i).show();
+            rep.evaluations += 1;
+            if want != got { bad.push(json!({"fn": "get", "index": i, "expected": want, "got": got})); break; }
+        }
+        let want = v.last().cloned().unwrap_or(dflt.clone()).show();
+        let got = f_last.call(l.clone(), dflt).show();
+        if want != got { bad.push(json!({"fn": "last", "expected": want, "got": got})); }
+        let got = f_count.call(l.clone());
+        if got != v.len() as u64 { bad.push(json!({"fn": "count", "expected": v.len(), "got": got})); }
+        rep.evaluations += 2;
+        if let Some(b) = bad.first() {
+            let mut input = b.clone();
+            input["script"] = json!(src);
+            input["list"] = json!(l.show());
+            input["round"] = json!(k);
+            violation(rep, name, &[D::List(Box::new(d.clone()))], 1, input);
+            return;
+        }
+    }
+    rep.class(format!("listget:{}", d.class()));
+}
+
 // context structs through `#[derive(Context)]` (the `offset_of!` table of macros/src/lib.rs),
 // the same fields in three declaration orders / representations
 macro_rules! derived_ctx {
@@ -506,8 +620,13 @@ fn cases() -> Vec<Case> {
     ctx_types!(ctxs);
     macro_rules! wrap { ($($t:ty);* $(;)?) => { $( cases.push(case::<$t>("wrap", sc_wrap::<$t>)); )* } }
     wrap_types!(wrap);
-    macro_rules! heavy { ($($t:ty);* $(;)?) => { $( position_cases!($t, cases); )* } }
+    macro_rules! heavy { ($($t:ty);* $(;)?) => { $(
+        position_cases!($t, cases);
+        cases.push(case::<$t>("method", sc_method::<$t>));
+    )* } }
     core_types!(heavy);
+    macro_rules! lists { ($($t:ty);* $(;)?) => { $( cases.push(case::<$t>("listget", sc_listget::<$t>)); )* } }
+    leaf_types!(lists);
     cases.push(Case { name: "narrow ints".into(), run: sc_narrow });
     cases.push(Case { name: "ctxderive declared".into(), run: sc_dctx1 });
     cases.push(Case { name: "ctxderive reversed".into(), run: sc_dctx2 });
